@@ -48,6 +48,20 @@ def evaluate(repo, mod, node, local_names=None, _depth=0):
             if found and found[0] == "const":
                 return evaluate(repo, found[1], found[2], None, _depth + 1)
         return UNKNOWN
+    if isinstance(node, ast.JoinedStr):
+        # f'<{COUNT * WORD.size}s' over constants: the text it evaluates to (plain {value} fields only)
+        parts = []
+        for v_ in node.values:
+            if isinstance(v_, ast.Constant) and isinstance(v_.value, str):
+                parts.append(v_.value)
+            elif isinstance(v_, ast.FormattedValue) and v_.conversion == -1 and v_.format_spec is None:
+                x_ = ev(v_.value)
+                if x_ is UNKNOWN or not isinstance(x_, (int, str)) or isinstance(x_, bool):
+                    return UNKNOWN
+                parts.append(str(x_))
+            else:
+                return UNKNOWN
+        return "".join(parts)
     if isinstance(node, ast.Attribute) and node.attr == "size":
         # struct.Struct(fmt).size / NAME.size with NAME = struct.Struct(fmt)
         inner = node.value
